@@ -21,46 +21,6 @@ func init() {
 
 // ---- contract stub of pebble.DB / Iterator / Batch ----
 
-type c10Store struct {
-	keys [][]byte
-	vals [][]byte
-}
-
-func (s *c10Store) pos(k []byte) (int, bool) {
-	for i := range s.keys {
-		c := bytes.Compare(s.keys[i], k)
-		if c == 0 {
-			return i, true
-		}
-		if c > 0 {
-			return i, false
-		}
-	}
-	return len(s.keys), false
-}
-
-func (s *c10Store) set(k, v []byte) {
-	i, found := s.pos(k)
-	if found {
-		s.vals[i] = append([]byte{}, v...)
-		return
-	}
-	s.keys = append(s.keys, nil)
-	s.vals = append(s.vals, nil)
-	copy(s.keys[i+1:], s.keys[i:])
-	copy(s.vals[i+1:], s.vals[i:])
-	s.keys[i] = append([]byte{}, k...)
-	s.vals[i] = append([]byte{}, v...)
-}
-
-func (s *c10Store) del(k []byte) {
-	i, found := s.pos(k)
-	if found {
-		s.keys = append(s.keys[:i], s.keys[i+1:]...)
-		s.vals = append(s.vals[:i], s.vals[i+1:]...)
-	}
-}
-
 type c10Iter struct {
 	lower []byte
 	i     int // -1: before the first key / unpositioned; len: exhausted
@@ -218,117 +178,8 @@ func c10Open() kvi.KVInterface {
 	return kv
 }
 
-var c10Keys = []string{"a", "ab", "b", "\x00", "ba", "\xff"}
-
-func c10Key(name string) []byte { return []byte(c10Keys[vChoice(name, vParam("NK", 4))]) }
-
-type c10Model struct {
-	keys [][]byte
-	vals [][]byte
-}
-
-func (m *c10Model) store() *c10Store { return &c10Store{keys: m.keys, vals: m.vals} }
-
 // VerifH_C10_pebble: after any short sequence of writes, every read of the adapter
 // answers like the sorted-map model.
 func VerifH_C10_pebble() {
-	D := vParam("D", 2)
-	kv := c10Open()
-	model := &c10Store{}
-	for s := 0; s < D; s++ {
-		name := "w" + string(rune('0'+s))
-		switch vChoice(name+".op", 5) {
-		case 0:
-			k, v := c10Key(name+".k"), []byte{vNondetByte(name + ".v")}
-			vAssert("C10.pebble.set-ok", kv.Set(k, v) == nil)
-			model.set(k, v)
-		case 1:
-			k := c10Key(name + ".k")
-			vAssert("C10.pebble.delete-ok", kv.Delete(k) == nil)
-			model.del(k)
-		case 2:
-			p := c10Key(name + ".p")
-			vKnownFor("C10/pebble-deleteprefix-noop", true, "C10.pebble.get,C10.pebble.haskey,C10.pebble.scan,C10.pebble.seek,C10.pebble.seekreverse")
-			vAssert("C10.pebble.deleteprefix-ok", kv.DeletePrefix(p) == nil)
-			var ks, vs [][]byte
-			for i := range model.keys {
-				if !bytes.HasPrefix(model.keys[i], p) {
-					ks, vs = append(ks, model.keys[i]), append(vs, model.vals[i])
-				}
-			}
-			model.keys, model.vals = ks, vs
-		case 3: // bulk write of two keys; the callback may fail: then nothing is written
-			k1, k2 := c10Key(name+".k1"), c10Key(name+".k2")
-			fail := vChoice(name+".fail", 2) == 1
-			vKnownFor("C10/pebble-bulkwrite-commits-on-error", fail, "C10.pebble.get,C10.pebble.haskey,C10.pebble.scan,C10.pebble.seek,C10.pebble.seekreverse")
-			err := kv.BulkWrite(func(bl kvi.KVBulkWrite) error {
-				bl.Set(k1, []byte{1})
-				bl.Set(k2, []byte{2})
-				if fail {
-					return errors.New("callback failed")
-				}
-				return nil
-			})
-			vAssert("C10.pebble.bulkwrite-error-passed-on", (err != nil) == fail)
-			if !fail {
-				model.set(k1, []byte{1})
-				model.set(k2, []byte{2})
-			}
-		default: // transactional update: set then delete
-			k1, k2 := c10Key(name+".k1"), c10Key(name+".k2")
-			err := kv.Update(func(tx kvi.KVTransaction) error {
-				tx.Set(k1, []byte{7})
-				tx.Delete(k2)
-				return nil
-			})
-			vAssert("C10.pebble.update-ok", err == nil)
-			model.set(k1, []byte{7})
-			model.del(k2)
-		}
-	}
-	// reads
-	probe := c10Key("probe")
-	mi, mfound := model.pos(probe)
-	switch vChoice("read", 5) {
-	case 0:
-		v, err := kv.Get(probe)
-		vAssert("C10.pebble.get", (err == nil) == mfound && (!mfound || bytes.Equal(v, model.vals[mi])))
-	case 1:
-		vKnownFor("C10/pebble-haskey-missing-key-panics", !mfound, "")
-		vAssert("C10.pebble.haskey", kv.HasKey(probe) == mfound)
-	case 2: // full forward scan from the probe
-		var got [][]byte
-		kv.View(func(it kvi.KVIterator) error {
-			for it.Seek(probe); it.Valid(); it.Next() {
-				got = append(got, it.Key())
-			}
-			return nil
-		})
-		want := model.keys[mi:]
-		ok := len(got) == len(want)
-		for i := range got {
-			if i < len(want) && !bytes.Equal(got[i], want[i]) {
-				ok = false
-			}
-		}
-		vAssert("C10.pebble.scan", ok)
-	case 3:
-		kv.View(func(it kvi.KVIterator) error {
-			it.Seek(probe)
-			vAssert("C10.pebble.seek", it.Valid() == (mi < len(model.keys)) && (!it.Valid() || bytes.Equal(it.Key(), model.keys[mi])))
-			return nil
-		})
-	default: // largest key <= probe
-		want := mi
-		if !mfound {
-			want = mi - 1
-		}
-		vKnownFor("C10/pebble-seekreverse-past-last-key", mi >= len(model.keys), "C10.pebble.seekreverse")
-		kv.View(func(it kvi.KVIterator) error {
-			it.SeekReverse(probe)
-			vAssert("C10.pebble.seekreverse", it.Valid() == (want >= 0) && (!it.Valid() || bytes.Equal(it.Key(), model.keys[want])))
-			return nil
-		})
-	}
-	vReach("c10.pebble.read")
+	c10Run(c10Open(), "pebble")
 }
